@@ -1456,6 +1456,15 @@ func (rn *runner) runBehaviour(b behaviour) {
 			// durable position at the moment of the crash
 			if vh, vr, chh, cr, err := stores.cur.ms.NetworkHeightRound(context.Background()); err == nil {
 				o.lastNHR, o.haveNHR = [4]uint64{vh, uint64(vr), chh, uint64(cr)}, true
+				// C10: the durable committed chain is never behind the durable position -- every height up to
+				// the recorded committing height has its committed header on disk at every crash point
+				for h := uint64(1); h <= chh; h++ {
+					if _, err := stores.cur.hs.LoadCommittedHeader(context.Background(), h); err != nil {
+						rn.emitViol(b.ID, i, st.Op, viol{"C10", "DurableChainCoversPosition", st.Op, "header-missing",
+							fmt.Sprintf("after a crash at store write %d of this step the mirror store records committing height %d, but the committed header store has no header at height %d", st.CrashAt, chh, h)})
+						break
+					}
+				}
 			}
 			// what had been durably committed stays the reference for C04/C10
 			ctx := context.Background()
